@@ -251,6 +251,20 @@ pub fn c05(out: &mut Vec<String>, rng: &mut Rng, tier: &str) {
             }
         }
     }
+    // harmonic <= geometric <= arithmetic on the reported sample means
+    for _ in 0..(if tier == "thorough" { 400 } else { 60 }) {
+        let n = rng.range(1, 80) as usize;
+        let xs = sample_pos_f64(rng, n, 25);
+        let am = Arithmetic::<f64>::from_iter(&xs).unwrap().sample_mean();
+        let gm = Geometric::<f64>::from_iter(&xs).unwrap().sample_mean();
+        let hm = Harmonic::<f64>::from_iter(&xs).unwrap().sample_mean();
+        out.push(format!("C05 means f {} => {} {} {}", enc_list(&xs), am.enc(), gm.enc(), hm.enc()));
+        let ys: Vec<f32> = xs.iter().map(|x| *x as f32).collect();
+        let am = Arithmetic::<f32>::from_iter(&ys).unwrap().sample_mean();
+        let gm = Geometric::<f32>::from_iter(&ys).unwrap().sample_mean();
+        let hm = Harmonic::<f32>::from_iter(&ys).unwrap().sample_mean();
+        out.push(format!("C05 means g {} => {} {} {}", enc_list(&ys), am.enc(), gm.enc(), hm.enc()));
+    }
     // rejection at every position of a short sample, and at random positions of longer ones
     let bads64 = [0.0f64, -0.0, -1.5, f64::NEG_INFINITY, -1e-300];
     let base = sample_pos_f64(rng, 6, 8);
